@@ -670,3 +670,11 @@ for _p in ("C01", "C02"):
     SPECS[_p]["level_text"] += ("; Traversable.export_samples: a level of sample children is announced, EVERY child's generalized sample is added in directory order and the level is finished "
                                 "once with exactly that batch (0, 1, 2 children; a stale entry from an earlier level is discarded); a level of sub-directories exports each of them; the manager's "
                                 "own batch is emptied even when a routine returned a new list")
+
+# the two actions (top of every chain)
+SPECS["C10"]["contracts"] += ["smpl_extract.actions:ls_action"]
+SPECS["C16"]["contracts"] += ["smpl_extract.actions:ls_action", "smpl_extract.actions:export_samples_to_wav"]
+SPECS["C06"]["contracts"] += ["smpl_extract.actions:export_samples_to_wav"]
+SPECS["C05"]["contracts"] += ["smpl_extract.actions:export_samples_to_wav"]
+SPECS["C10"]["level_text"] += "; ls_action answers a path that does not resolve (prints the message) and lets no ErrorInvalidPath out"
+SPECS["C06"]["level_text"] += "; export_samples_to_wav roots the export manager at exactly the directory given and installs the naming table (safe names, then export names)"
